@@ -205,6 +205,9 @@ func (s *cmdSched) runScheduled(seed int64, fixed []int, workers []func()) []int
 	return ord
 }
 
+// the functional properties of each kind whose histories include the concurrent ones
+var redisKindProps = map[string][]string{"bloom": {"C01"}, "cms": {"C03"}, "hll": {"C05", "C06"}}
+
 func onlyScriptCall(cmds []string) bool {
 	n := 0
 	for _, c := range cmds {
@@ -230,8 +233,13 @@ func suiteRedisConc(c *Ctx) {
 	}
 	redisConcCuckoo(c, s, true)
 	redisConcTopK(c, s, true)
+	for r := 0; r < c.scale(40, 300); r++ {
+		redisConcMerge(c, s, "cms")
+		redisConcMerge(c, s, "hll")
+	}
 	redisCommandSequences(c, s)
 	redisCuckooLengthAcrossHandles(c)
+	redisFaults(c)
 }
 
 func seqMatches(got []string, want [][]string) bool {
@@ -271,13 +279,13 @@ func redisCommandSequences(c *Ctx, s *cmdSched) {
 		got := s.record(func() { t.Insert([]byte("newcomer"), 9) })
 		want := [][]string{sc, sc, {"zcard"}, {"zrange"}, {"zscore"}, {"zadd"}, {"zcard"}, {"zpopmin"}}
 		if !seqMatches(got, want) {
-			c.fail([]string{"C16"}, "redistopk-command-sequence", fmt.Sprintf("TopKRedis.Insert of a new element into a full set issues %v, the modelled program is [script script zcard zrange zscore zadd zcard zpopmin]", got), map[string]interface{}{"commands": got})
+			c.fail([]string{"C16", "C04", "C08"}, "redistopk-command-sequence", fmt.Sprintf("TopKRedis.Insert of a new element into a full set issues %v, the modelled program is [script script zcard zrange zscore zadd zcard zpopmin]", got), map[string]interface{}{"commands": got})
 		}
 		// tracked element: ... ZSCORE, ZREM, ZADD, ZCARD (no pop)
 		got = s.record(func() { t.Insert([]byte("newcomer"), 1) })
 		want = [][]string{sc, sc, {"zcard"}, {"zrange"}, {"zscore"}, {"zrem"}, {"zadd"}, {"zcard"}}
 		if !seqMatches(got, want) {
-			c.fail([]string{"C16"}, "redistopk-command-sequence", fmt.Sprintf("TopKRedis.Insert of a tracked element issues %v, the modelled program is [script script zcard zrange zscore zrem zadd zcard]", got), map[string]interface{}{"commands": got})
+			c.fail([]string{"C16", "C04", "C08"}, "redistopk-command-sequence", fmt.Sprintf("TopKRedis.Insert of a tracked element issues %v, the modelled program is [script script zcard zrange zscore zrem zadd zcard]", got), map[string]interface{}{"commands": got})
 		}
 		c.branch("topk-command-sequence")
 	}
@@ -380,7 +388,7 @@ func redisConcCommutative(c *Ctx, s *cmdSched, kind string) {
 		okTrace = onlyScriptCall(cmds)
 	}
 	if !okTrace {
-		c.fail([]string{"C16"}, kind+"-update-not-atomic-steps", fmt.Sprintf("%s: one update issues the commands %v (model: Bloom = SETBITs only, Count-Min/HyperLogLog = one script)", kind, cmds), map[string]interface{}{"kind": kind, "commands": cmds})
+		c.fail(append([]string{"C16"}, redisKindProps[kind]...), kind+"-update-not-atomic-steps", fmt.Sprintf("%s: one update issues the commands %v (model: Bloom = SETBITs only, Count-Min/HyperLogLog = one script)", kind, cmds), map[string]interface{}{"kind": kind, "commands": cmds})
 	}
 	nw := 2 + c.rng.Intn(3)
 	shared := c.rng.Intn(2) == 0
@@ -408,7 +416,7 @@ func redisConcCommutative(c *Ctx, s *cmdSched, kind string) {
 	a, _ := k.eq.absStr(h0)
 	b, _ := k.eq.absStr(seqH)
 	if a != b {
-		c.fail([]string{"C16"}, kind+"-concurrent-update-lost",
+		c.fail(append([]string{"C16", "C08"}, redisKindProps[kind]...), kind+"-concurrent-update-lost",
 			fmt.Sprintf("%s: final state after %d clients (shared handle=%v) differs from the sequential application of the same updates", kind, nw, shared),
 			map[string]interface{}{"kind": kind, "ops": opsPer, "schedule": order, "shared_handle": shared})
 	}
@@ -577,4 +585,215 @@ func redisConcTopK(c *Ctx, s *cmdSched, targeted bool) {
 	if alternations(order) >= 2 {
 		c.nontrivial(fmt.Sprint("topk", order))
 	}
+}
+
+// ---------------------------------------------------------------------------------------------
+// Merge against concurrent updates (C06 / C12 / C16): a Merge into a shared Redis sketch while
+// other handles update the same sketch.  Merge and updates commute (cell-wise sum / register-wise
+// max), so whatever the interleaving of Redis commands the final state is the one of the
+// sequential application - provided the Merge is one atomic step (a single script).
+
+func redisConcMerge(c *Ctx, s *cmdSched, kind string) {
+	c.rep.Cases++
+	pool := eqPool
+	nw := 2 + c.rng.Intn(2)
+	var final, want string
+	var opsPer [][]int
+	var order []int
+	switch kind {
+	case "cms":
+		rows, cols := uint(2+c.rng.Intn(2)), uint(3+c.rng.Intn(6))
+		mk := func() *gostatix.CountMinSketchRedis { h, _ := gostatix.NewCountMinSketchRedis(rows, cols); return h }
+		T, S, seq := mk(), mk(), mk()
+		if T == nil || S == nil || seq == nil {
+			return
+		}
+		for i := 0; i < 5; i++ {
+			e, n := pool[c.rng.Intn(len(pool))], uint64(1+c.rng.Intn(9))
+			S.Update(e, n)
+			seq.Update(e, n)
+		}
+		T.Update(pool[0], 1) // scripts cached
+		seq.Update(pool[0], 1)
+		workers := []func(){func() { T.Merge(S) }}
+		opsPer = append(opsPer, []int{-1})
+		for w := 1; w < nw; w++ {
+			h, err := gostatix.NewCountMinSketchRedisFromKey(T.MetadataKey())
+			if err != nil || h == nil {
+				h = T
+			}
+			var ops []int
+			for i := 0; i < 1+c.rng.Intn(3); i++ {
+				ops = append(ops, c.rng.Intn(len(pool)))
+			}
+			opsPer = append(opsPer, ops)
+			for _, j := range ops {
+				seq.Update(pool[j], uint64(j+1))
+			}
+			workers = append(workers, func() {
+				for _, j := range ops {
+					h.Update(pool[j], uint64(j+1))
+				}
+			})
+		}
+		order = s.runScheduled(c.rng.Int63(), nil, workers)
+		a, _ := parseCMS(T.Export())
+		b, _ := parseCMS(seq.Export())
+		final, want = matrixStr(a.M), matrixStr(b.M)
+	default:
+		m := uint64(128)
+		mk := func() *gostatix.HyperLogLogRedis { h, _ := gostatix.NewHyperLogLogRedis(m); return h }
+		T, S, seq := mk(), mk(), mk()
+		if T == nil || S == nil || seq == nil {
+			return
+		}
+		elem := func(i int) []byte { return []byte(fmt.Sprintf("hll-merge-%d", i)) }
+		for i := 0; i < 6; i++ {
+			e := elem(c.rng.Intn(40))
+			S.Update(e)
+			seq.Update(e)
+		}
+		T.Update(elem(0))
+		seq.Update(elem(0))
+		workers := []func(){func() { T.Merge(S) }}
+		opsPer = append(opsPer, []int{-1})
+		for w := 1; w < nw; w++ {
+			h, err := gostatix.NewHyperLogLogRedisFromKey(T.MetadataKey())
+			if err != nil || h == nil {
+				h = T
+			}
+			var ops []int
+			for i := 0; i < 1+c.rng.Intn(3); i++ {
+				ops = append(ops, c.rng.Intn(40))
+			}
+			opsPer = append(opsPer, ops)
+			for _, j := range ops {
+				seq.Update(elem(j))
+			}
+			workers = append(workers, func() {
+				for _, j := range ops {
+					h.Update(elem(j))
+				}
+			})
+		}
+		order = s.runScheduled(c.rng.Int63(), nil, workers)
+		a, _ := parseHLL(T.Export())
+		b, _ := parseHLL(seq.Export())
+		final, want = fmt.Sprint(a.R), fmt.Sprint(b.R)
+	}
+	c.op(kind + ".merge-vs-updates")
+	if final != want {
+		props := []string{"C16", "C12"}
+		if kind != "cms" {
+			props = []string{"C16", "C06"}
+		}
+		c.fail(props, kind+"-merge-loses-concurrent-update",
+			fmt.Sprintf("%s: a Merge into a shared sketch interleaved with updates through other handles: final state differs from the sequential application (an acknowledged update was overwritten)", kind),
+			map[string]interface{}{"kind": kind, "ops": opsPer, "schedule": order})
+	}
+	if alternations(order) >= 2 {
+		c.nontrivial(fmt.Sprint(kind, "merge", opsPer, order))
+	}
+}
+
+// ---------------------------------------------------------------------------------------------
+// Faults on the connection (C03 / C04 / C16): one command of an update is hit by a fault - it is
+// refused before it is executed, or it is executed and its REPLY is lost (timeout, reset).  The
+// caller sees an error (or, if the library hides it, nothing).  Whatever it sees, an update is
+// applied at most once: the estimate of an element never exceeds the sum of all counts any call
+// tried to add, and is at least the sum of those calls that reported success.
+
+type faultHook struct {
+	mu    sync.Mutex
+	armed bool
+	lost  bool // true: execute, then lose the reply; false: refuse before execution
+	fired int
+}
+
+func (f *faultHook) DialHook(next redis.DialHook) redis.DialHook { return next }
+func (f *faultHook) ProcessHook(next redis.ProcessHook) redis.ProcessHook {
+	return func(ctx context.Context, cmd redis.Cmder) error {
+		f.mu.Lock()
+		hit := f.armed
+		lost := f.lost
+		if hit {
+			f.armed = false
+			f.fired++
+		}
+		f.mu.Unlock()
+		if !hit {
+			return next(ctx, cmd)
+		}
+		err := fmt.Errorf("verif: injected fault (i/o timeout)")
+		if lost {
+			next(ctx, cmd)
+		}
+		cmd.SetErr(err)
+		return err
+	}
+}
+func (f *faultHook) ProcessPipelineHook(next redis.ProcessPipelineHook) redis.ProcessPipelineHook {
+	return next
+}
+
+var theFaults *faultHook
+
+func getFaults() *faultHook {
+	if theFaults == nil {
+		theFaults = &faultHook{}
+		gostatix.VerifRedisClient().AddHook(theFaults)
+	}
+	return theFaults
+}
+
+func redisFaults(c *Ctx) {
+	fh := getFaults()
+	for round := 0; round < c.scale(12, 80); round++ {
+		rows, cols := uint(1+c.rng.Intn(4)), uint(1+c.rng.Intn(64))
+		s, err := gostatix.NewCountMinSketchRedis(rows, cols)
+		if err != nil || s == nil {
+			continue
+		}
+		c.rep.Cases++
+		s.Update([]byte("warm"), 0) // script cache: a first call legitimately falls back from EVALSHA to EVAL
+		s.Count([]byte("warm"))
+		acked := map[string]uint64{}
+		var attempted uint64
+		var hist []string
+		for i := 0; i < 6+c.rng.Intn(8); i++ {
+			e := eqPool[c.rng.Intn(3)]
+			n := uint64(1 + c.rng.Intn(9))
+			fault := c.rng.Intn(3) == 0
+			if fault {
+				fh.mu.Lock()
+				fh.armed, fh.lost = true, c.rng.Intn(3) != 0
+				fh.mu.Unlock()
+			}
+			var uerr error
+			res := safely(func() { uerr = s.Update(e, n) })
+			fh.mu.Lock()
+			fh.armed = false
+			fh.mu.Unlock()
+			attempted += n
+			if !res.panicked && uerr == nil {
+				acked[string(e)] += n
+			}
+			hist = append(hist, fmt.Sprintf("Update(%s,%d) fault=%v err=%v", e, n, fault, uerr != nil))
+			c.op("cms.update-under-fault")
+		}
+		for e, lo := range acked {
+			got, err := s.Count([]byte(e))
+			if err != nil {
+				continue
+			}
+			if got < lo || got > attempted {
+				c.fail([]string{"C16", "C03"}, "cms-update-not-exactly-once-under-fault",
+					fmt.Sprintf("cms(rows=%d,cols=%d,redis=true): Count(%s)=%d after updates hit by connection faults: acknowledged updates of it sum to %d, ALL attempted updates of all elements to %d", rows, cols, e, got, lo, attempted),
+					map[string]interface{}{"rows": rows, "cols": cols, "history": hist})
+				return
+			}
+		}
+		c.nontrivial(fmt.Sprint(rows, cols, hist))
+	}
+	c.branch("fault-injection")
 }
